@@ -1,5 +1,5 @@
 //! Virtual time.
-pub use std::time::Duration;
+pub use std::time::{Duration, SystemTime, SystemTimeError, UNIX_EPOCH};
 use std::ops::{Add, AddAssign, Sub};
 
 #[derive(Clone, Copy, PartialEq, Eq, PartialOrd, Ord, Hash, Debug)]
